@@ -407,4 +407,321 @@ theorem flushInput_good {limit : Nat} (cfg : Cfg) (bt : BlockType) (raw : List S
           · simp [proj, projEv, hasRaise, Event.isRaise, isErr]
       | _ :: _ :: _ :: _ => simp [proj, projEv, hasRaise, Event.isRaise, isErr]
 
+/-! ## the simulation -/
+
+/-- the Spec never meets a data line behind the blank line that ended the data block
+    (the code reads such lines as further data: known finding C11-F1) -/
+def wellTerminated : Nat → List Spec.Kind → Bool
+  | _, [] => true
+  | b, .blank :: ks => wellTerminated (if b ≥ 3 then b else b + 1) ks
+  | b, .comment :: ks => wellTerminated b ks
+  | b, .data _ _ _ :: ks => decide (b < 3) && wellTerminated b ks
+
+/-- model state `st` and Spec state `s` describe the same point of the same file -/
+structure Rel (limit : Nat) (cfg : Cfg) (st : LState) (s : Spec.St) : Prop where
+  blockLt : s.block < 3 → s.block = cfg.firstBlock.value + st.blockCounter ∧ st.blockType.value = s.block
+  blockGe : s.block ≥ 3 → cfg.firstBlock.value + st.blockCounter ≥ 3 ∧ s.cur = none
+  curNone : s.cur = none → st.hasNonComments = false ∧ ∀ r ∈ st.raw, Stored limit r ∧ Spec.isCommentLine r = true
+  curSome : ∀ ws, s.cur = some ws → s.block < 3 ∧ st.hasNonComments = true ∧ wordsOf st.raw = ws ∧
+    st.continueInput = s.amp ∧ GoodGroup limit st.raw
+
+theorem wordsOf_append (a b : List Str) : wordsOf (a ++ b) = wordsOf a ++ wordsOf b := by
+  simp [wordsOf, List.filter_append, List.flatMap_append]
+
+theorem wordsOf_single (r : Str) : wordsOf [r] = if Spec.isCommentLine r then [] else Spec.lineWords r := by
+  unfold wordsOf
+  cases h : Spec.isCommentLine r <;> simp [List.filter, h]
+
+theorem wordsOf_comments (raw : List Str) (h : ∀ r ∈ raw, Spec.isCommentLine r = true) : wordsOf raw = [] := by
+  unfold wordsOf
+  have : raw.filter (fun r => !Spec.isCommentLine r) = [] := by
+    rw [List.filter_eq_nil_iff]; intro r hr; simp [h r hr]
+  rw [this]; rfl
+
+theorem hasData_comments (raw : List Str) (h : ∀ r ∈ raw, Spec.isCommentLine r = true) : hasData raw = false := by
+  unfold hasData
+  rw [List.any_eq_false]; intro r hr; simp [h r hr]
+
+theorem hasData_append (a b : List Str) : hasData (a ++ b) = (hasData a || hasData b) := by
+  simp [hasData]
+
+theorem flushInput_comments {limit : Nat} (cfg : Cfg) (bt : BlockType) (raw : List Str)
+    (h : ∀ r ∈ raw, Stored limit r ∧ Spec.isCommentLine r = true) :
+    proj (flushInput cfg bt raw) = [] ∧ hasRaise (flushInput cfg bt raw) = false := by
+  unfold flushInput
+  rw [isReadInput_eq (fun r hr => (h r hr).1), wordsOf_comments raw (fun r hr => (h r hr).2)]
+  simp [proj, projEv, hasData_comments raw (fun r hr => (h r hr).2), hasRaise, Event.isRaise]
+
+theorem stored_of_good {limit : Nat} {x : List Char} (g : GoodLine limit x) (hb : Spec.isBlankLine x = false) :
+    Stored limit (rstripB x) := ⟨x, g, hb, rfl⟩
+
+theorem value_ofValue (n : Nat) (h : n < 3) : (BlockType.ofValue n).value = n := by
+  match n, h with
+  | 0, _ => rfl
+  | 1, _ => rfl
+  | 2, _ => rfl
+
+abbrev O (cfg : Cfg) : Spec.Inp → Spec.SOut := Spec.outOf (joinPath cfg.topDir) cfg.chain
+
+/-- the flush at a blank line / at the end of the file -/
+theorem flush_rel {limit : Nat} (cfg : Cfg) (st : LState) (s : Spec.St) (R : Rel limit cfg st s) :
+    proj (flushBlock cfg st).1 = (Spec.close s).map (O cfg) ∧
+    hasRaise (flushBlock cfg st).1 = ((Spec.close s).map (O cfg)).any isErr ∧
+    (Spec.close s).length ≤ 1 := by
+  unfold flushBlock Spec.close
+  simp only
+  cases hc : s.cur with
+  | none =>
+    obtain ⟨_, hraw⟩ := R.curNone hc
+    split
+    · simp [proj, hasRaise]
+    · have := flushInput_comments cfg st.blockType st.raw hraw
+      simp [this.1, this.2]
+  | some ws =>
+    obtain ⟨hlt, _, hw, _, gg⟩ := R.curSome ws hc
+    have hne : st.raw.isEmpty = false := by
+      cases hr : st.raw with
+      | nil => have := gg.data; rw [hr] at this; simp [hasData] at this
+      | cons => rfl
+    have hbt := (R.blockLt hlt).2
+    have := flushInput_good cfg st.blockType st.raw gg
+    simp only [hne, Bool.false_eq_true, ↓reduceIte, hlt, List.map_cons, List.map_nil, List.any_cons, List.any_nil,
+      Bool.or_false, List.length_cons, List.length_nil, Nat.le_refl, and_true]
+    rw [this.1, this.2, hbt, hw]
+    exact ⟨rfl, rfl⟩
+
+theorem cutS_cons (o : Spec.SOut) (t : List Spec.SOut) :
+    Spec.cutS (o :: t) = if isErr o then [o] else o :: Spec.cutS t := by
+  cases o <;> simp [Spec.cutS, isErr]
+
+theorem cutS_append_noErr (a b : List Spec.SOut) (h : a.any isErr = false) : Spec.cutS (a ++ b) = a ++ Spec.cutS b := by
+  induction a with
+  | nil => rfl
+  | cons o a ih =>
+    simp only [List.any_cons, Bool.or_eq_false_iff] at h
+    simp only [List.cons_append, cutS_cons, h.1, Bool.false_eq_true, ↓reduceIte, ih h.2]
+
+theorem cutS_short (a b : List Spec.SOut) (hl : a.length ≤ 1) (h : a.any isErr = true) : Spec.cutS (a ++ b) = a := by
+  match a, hl with
+  | [], _ => simp at h
+  | [o], _ =>
+    simp only [List.any_cons, List.any_nil, Bool.or_false] at h
+    simp [cutS_cons, h]
+
+theorem raw_nonempty {limit : Nat} {raw : List Str} (gg : GoodGroup limit raw) : raw.isEmpty = false := by
+  cases hr : raw with
+  | nil => have := gg.data; rw [hr] at this; simp [hasData] at this
+  | cons => rfl
+
+/-- the four things to show about one line, for explicit results of the model step and the Spec step -/
+def StepOK (limit : Nat) (cfg : Cfg) (m : List Event × LState) (p : List Spec.Inp × Spec.St) : Prop :=
+  proj m.1 = p.1.map (O cfg) ∧ hasRaise m.1 = (p.1.map (O cfg)).any isErr ∧ p.1.length ≤ 1 ∧
+    (hasRaise m.1 = false → Rel limit cfg m.2 p.2)
+
+theorem stepOK_silent {limit : Nat} (cfg : Cfg) (st' : LState) (s' : Spec.St) (R' : Rel limit cfg st' s') :
+    StepOK limit cfg ([], st') ([], s') := ⟨rfl, rfl, Nat.zero_le _, fun _ => R'⟩
+
+/-- a data line -/
+theorem step_data {limit : Nat} (cfg : Cfg) (hl : cfg.lineLength = limit) (st : LState) (s : Spec.St)
+    (R : Rel limit cfg st s) (x t : List Char) (g : GoodLine limit x) (ht : IsTerm t)
+    (hb : Spec.isBlankLine x = false) (hc : Spec.isCommentLine x = false) (hlt : s.block < 3) :
+    StepOK limit cfg (stepLine cfg st (x ++ t))
+      (Spec.step s (.data (Spec.startsInput x) (Spec.lineWords x) (Spec.endsAmp (Spec.dataPart x)))) := by
+  subst hl
+  have hstored := stored_of_good g hb
+  have hnc : Spec.isCommentLine (rstripB x) = false := by rw [isCommentLine_rstripB]; exact hc
+  have hwr : wordsOf [rstripB x] = Spec.lineWords x := by
+    rw [wordsOf_single, hnc, lineWords_rstripB]; rfl
+  have hdr : hasData [rstripB x] = true := by simp [hasData, hnc]
+  have hnge : ¬ s.block ≥ 3 := by omega
+  rw [stepLine_good cfg st x t g ht]
+  simp only [hb, hc, Bool.false_eq_true, ↓reduceIte, Bool.not_false, Bool.and_true, Bool.or_true]
+  cases hcur : s.cur with
+  | none =>
+    obtain ⟨hhn, hraw⟩ := R.curNone hcur
+    have hS : Spec.step s (.data (Spec.startsInput x) (Spec.lineWords x) (Spec.endsAmp (Spec.dataPart x))) =
+        ([], { s with cur := some (Spec.lineWords x), amp := Spec.endsAmp (Spec.dataPart x) }) := by
+      unfold Spec.step; simp only [hnge, ↓reduceIte, hcur]
+    rw [hS]
+    simp only [hhn, Bool.and_false, Bool.false_and, Bool.false_eq_true, ↓reduceIte, hasRaise_nil]
+    apply stepOK_silent
+    constructor
+    · intro _; exact R.blockLt hlt
+    · intro h; exact absurd h hnge
+    · intro h; simp at h
+    · intro ws' hws'
+      simp only [Option.some.injEq] at hws'
+      subst hws'
+      refine ⟨hlt, rfl, ?_, rfl, ?_⟩
+      · show wordsOf (st.raw ++ [rstripB x]) = _
+        rw [wordsOf_append, wordsOf_comments _ (fun r hr => (hraw r hr).2), hwr]; rfl
+      · constructor
+        · intro r hr
+          rcases List.mem_append.mp hr with h | h
+          · exact (hraw r h).1
+          · simp at h; subst h; exact hstored
+        · show hasData (st.raw ++ [rstripB x]) = true
+          rw [hasData_append, hdr]; simp
+  | some cw =>
+    obtain ⟨_, hhn, hw, hci, gg⟩ := R.curSome cw hcur
+    have hne := raw_nonempty gg
+    simp only [hhn, hne, Bool.not_false, Bool.and_true, hci]
+    cases hnew : (Spec.startsInput x && !s.amp)
+    · -- a continuation line
+      have hS : Spec.step s (.data (Spec.startsInput x) (Spec.lineWords x) (Spec.endsAmp (Spec.dataPart x))) =
+          ([], { s with cur := some (cw ++ Spec.lineWords x), amp := Spec.endsAmp (Spec.dataPart x) }) := by
+        unfold Spec.step; simp only [hnge, ↓reduceIte, hcur, hnew, Bool.false_eq_true]
+      rw [hS]
+      simp only [Bool.false_eq_true, ↓reduceIte, hasRaise_nil]
+      apply stepOK_silent
+      constructor
+      · intro _; exact R.blockLt hlt
+      · intro h; exact absurd h hnge
+      · intro h; simp at h
+      · intro ws' hws'
+        simp only [Option.some.injEq] at hws'
+        subst hws'
+        refine ⟨hlt, rfl, ?_, rfl, ?_⟩
+        · show wordsOf (st.raw ++ [rstripB x]) = _
+          rw [wordsOf_append, hw, hwr]
+        · constructor
+          · intro r hr
+            rcases List.mem_append.mp hr with h | h
+            · exact gg.stored r h
+            · simp at h; subst h; exact hstored
+          · show hasData (st.raw ++ [rstripB x]) = true
+            rw [hasData_append, gg.data]; rfl
+    · -- a new input begins: the open one is flushed
+      have hS : Spec.step s (.data (Spec.startsInput x) (Spec.lineWords x) (Spec.endsAmp (Spec.dataPart x))) =
+          ([⟨s.block, cw⟩], { s with cur := some (Spec.lineWords x), amp := Spec.endsAmp (Spec.dataPart x) }) := by
+        unfold Spec.step; simp only [hnge, ↓reduceIte, hcur, hnew]
+      rw [hS]
+      have hf := flushInput_good cfg st.blockType st.raw gg
+      have hbt := (R.blockLt hlt).2
+      rw [hbt, hw] at hf
+      simp only [↓reduceIte]
+      cases herr : isErr (O cfg ⟨s.block, cw⟩)
+      · have hnr : hasRaise (flushInput cfg st.blockType st.raw) = false := by rw [hf.2]; exact herr
+        simp only [hnr, Bool.false_eq_true, ↓reduceIte]
+        refine ⟨hf.1, ?_, Nat.le_refl _, ?_⟩
+        · simp only [hnr, List.map_cons, List.map_nil, List.any_cons, List.any_nil, Bool.or_false]; exact herr.symm
+        · intro _
+          constructor
+          · intro _; exact R.blockLt hlt
+          · intro h; exact absurd h hnge
+          · intro h; simp at h
+          · intro ws' hws'
+            simp only [Option.some.injEq] at hws'
+            subst hws'
+            refine ⟨hlt, rfl, ?_, rfl, ?_⟩
+            · show wordsOf ([] ++ [rstripB x]) = _
+              rw [List.nil_append, hwr]
+            · constructor
+              · intro r hr; simp at hr; subst hr; exact hstored
+              · show hasData ([] ++ [rstripB x]) = true
+                rw [List.nil_append]; exact hdr
+      · have hnr : hasRaise (flushInput cfg st.blockType st.raw) = true := by rw [hf.2]; exact herr
+        simp only [hnr, ↓reduceIte]
+        refine ⟨hf.1, ?_, Nat.le_refl _, ?_⟩
+        · simp only [hnr, List.map_cons, List.map_nil, List.any_cons, List.any_nil, Bool.or_false]; exact herr.symm
+        · intro h; rw [hnr] at h; exact absurd h (by decide)
+
+/-- a C comment line -/
+theorem step_comment {limit : Nat} (cfg : Cfg) (hl : cfg.lineLength = limit) (st : LState) (s : Spec.St)
+    (R : Rel limit cfg st s) (x t : List Char) (g : GoodLine limit x) (ht : IsTerm t)
+    (hb : Spec.isBlankLine x = false) (hc : Spec.isCommentLine x = true) :
+    StepOK limit cfg (stepLine cfg st (x ++ t)) (Spec.step s .comment) := by
+  subst hl
+  have hstored := stored_of_good g hb
+  have hcr : Spec.isCommentLine (rstripB x) = true := by rw [isCommentLine_rstripB]; exact hc
+  have hstep : Spec.step s .comment = ([], s) := by unfold Spec.step; split <;> rfl
+  rw [hstep, stepLine_good cfg st x t g ht]
+  simp only [hb, hc, Bool.false_eq_true, ↓reduceIte, Bool.not_true, Bool.and_false, Bool.false_and, hasRaise_nil,
+    Bool.or_false]
+  apply stepOK_silent
+  constructor
+  · exact R.blockLt
+  · exact R.blockGe
+  · intro hcur
+    obtain ⟨hhn, hraw⟩ := R.curNone hcur
+    refine ⟨hhn, ?_⟩
+    intro r hr
+    rcases List.mem_append.mp hr with h | h
+    · exact hraw r h
+    · simp at h; subst h; exact ⟨hstored, hcr⟩
+  · intro ws hcur
+    obtain ⟨hlt, hhn, hw, hci, gg⟩ := R.curSome ws hcur
+    refine ⟨hlt, hhn, ?_, hci, ?_⟩
+    · show wordsOf (st.raw ++ [rstripB x]) = _
+      rw [wordsOf_append, hw, wordsOf_single, hcr]; simp
+    · constructor
+      · intro r hr
+        rcases List.mem_append.mp hr with h | h
+        · exact gg.stored r h
+        · simp at h; subst h; exact hstored
+      · show hasData (st.raw ++ [rstripB x]) = true
+        rw [hasData_append, gg.data]; rfl
+
+/-- a blank line -/
+theorem step_blank {limit : Nat} (cfg : Cfg) (hl : cfg.lineLength = limit) (st : LState) (s : Spec.St)
+    (R : Rel limit cfg st s) (x t : List Char) (g : GoodLine limit x) (ht : IsTerm t)
+    (hb : Spec.isBlankLine x = true) :
+    StepOK limit cfg (stepLine cfg st (x ++ t)) (Spec.step s .blank) := by
+  subst hl
+  rw [stepLine_good cfg st x t g ht]
+  simp only [hb, ↓reduceIte]
+  have hfl := flush_rel cfg st s R
+  by_cases hge : s.block ≥ 3
+  · obtain ⟨hcnt, hcur⟩ := R.blockGe hge
+    have hclose : Spec.close s = [] := by unfold Spec.close; rw [hcur]
+    rw [hclose] at hfl
+    have hS : Spec.step s .blank = ([], s) := by unfold Spec.step; simp only [hge, ↓reduceIte]
+    rw [hS]
+    refine ⟨hfl.1, hfl.2.1, Nat.zero_le _, ?_⟩
+    intro _
+    constructor
+    · intro h; simp only at h; omega
+    · intro _; refine ⟨?_, hcur⟩; unfold flushBlock; simp only; omega
+    · intro _; refine ⟨rfl, ?_⟩; unfold flushBlock; simp
+    · intro ws h; rw [hcur] at h; simp at h
+  · have hlt : s.block < 3 := by omega
+    obtain ⟨hbl, hbt⟩ := R.blockLt hlt
+    have hS : Spec.step s .blank = (Spec.close s, { block := s.block + 1, cur := none, amp := false }) := by
+      unfold Spec.step; simp only [hge, ↓reduceIte]
+    rw [hS]
+    refine ⟨hfl.1, hfl.2.1, hfl.2.2, ?_⟩
+    intro _
+    constructor
+    · intro h
+      simp only at h
+      unfold flushBlock
+      simp only
+      have h3 : cfg.firstBlock.value + (st.blockCounter + 1) < 3 := by omega
+      simp only [h3, ↓reduceIte]
+      exact ⟨by omega, by rw [value_ofValue _ h3]; omega⟩
+    · intro h
+      simp only at h
+      refine ⟨?_, rfl⟩
+      unfold flushBlock; simp only; omega
+    · intro _; refine ⟨rfl, ?_⟩; unfold flushBlock; simp
+    · intro ws h; simp at h
+
+/-- one line -/
+theorem step_rel {limit : Nat} (cfg : Cfg) (hl : cfg.lineLength = limit) (st : LState) (s : Spec.St)
+    (R : Rel limit cfg st s) (x t : List Char) (g : GoodLine limit x) (ht : IsTerm t)
+    (hwt : ∀ col ws amp, Spec.classifyPhysical x = .data col ws amp → s.block < 3) :
+    StepOK limit cfg (stepLine cfg st (x ++ t)) (Spec.step s (Spec.classifyPhysical x)) := by
+  have hk := kind_good g
+  cases hb : Spec.isBlankLine x
+  · cases hc : Spec.isCommentLine x
+    · simp only [hb, hc, Bool.false_eq_true, ↓reduceIte] at hk
+      rw [hk]
+      exact step_data cfg hl st s R x t g ht hb hc (hwt _ _ _ hk)
+    · simp only [hb, hc, Bool.false_eq_true, ↓reduceIte] at hk
+      rw [hk]
+      exact step_comment cfg hl st s R x t g ht hb hc
+  · simp only [hb, ↓reduceIte] at hk
+    rw [hk]
+    exact step_blank cfg hl st s R x t g ht hb
+
 end MontePyVerif.Refine
